@@ -73,8 +73,43 @@ def run_checks():
         res[p] = {"exit": rr.returncode, "signatures": sigs[:5], "secs": round(time.time() - t, 1)}
     return res
 
+def own_only(outdir, n, sid):
+    """Cheap re-evaluation of an already confirmed change: only the check of the property it breaks is run
+    (SE_OWN_ONLY=1); the demonstration and the test suite were confirmed when the change was first kept."""
+    d = f"/verif/seeded/{sid}"
+    meta = json.load(open(f"{d}/meta.json"))
+    prop = meta.get("breaks_property") or sid[:3]
+    prepare()
+    r = sh(f"git apply {outdir}/patch{n}.diff", cwd=WT)
+    if r.returncode:
+        print(f"{sid}: patch does not apply: {r.stderr[-300:]}"); sys.exit(1)
+    shutil.rmtree(f"{OUT}/replays", ignore_errors=True)
+    os.makedirs(f"{OUT}/work", exist_ok=True)
+    sh(f"python3 /verif/tools/mkdict.py {WT} {OUT}/work/dict.json")
+    binary = "dv_http" if prop == "C20" else "dv_check"
+    b = sh(f"cargo build -q -p dv_gen && {SE}/target/debug/dv_gen 1 generated/src/types.rs && cargo build -q -p {binary}", cwd=MH)
+    if b.returncode:
+        print(f"{sid}: build error {b.stderr[-800:]}"); sh("git checkout -q -- .", cwd=WT); sys.exit(1)
+    env = dict(os.environ, VERIF_DIR=OUT, VERIF_SEED="1")
+    rr = subprocess.run([f"{SE}/target/debug/{binary}", prop, "quick"], capture_output=True, text=True, env=env)
+    sigs = [l.strip()[len("signature: "):] for l in rr.stdout.splitlines() if l.strip().startswith("signature: ")]
+    sh("git checkout -q -- . && git clean -qfd tests", cwd=WT)
+    head = sh("git -C /verif rev-parse --short HEAD").stdout.strip()
+    meta["own_check_rerun"] = {"harness_commit": head, "exit": rr.returncode, "signatures": sigs[:5]}
+    caught = set(meta.get("caught_by", []))
+    if rr.returncode == 1: caught.add(prop)
+    else: caught.discard(prop)
+    meta["caught_by"] = sorted(caught)
+    json.dump(meta, open(f"{d}/meta.json", "w"), indent=1)
+    if os.path.isdir(f"{OUT}/replays"):
+        shutil.rmtree(f"{d}/replays_own", ignore_errors=True)
+        shutil.copytree(f"{OUT}/replays", f"{d}/replays_own")
+    print(f"{sid}: own={prop} exit={rr.returncode} {sigs[:2]}")
+
 def main():
     outdir, n, sid = sys.argv[1], sys.argv[2], sys.argv[3]
+    if os.environ.get("SE_OWN_ONLY") and os.path.exists(f"/verif/seeded/{sid}/meta.json"):
+        return own_only(outdir, n, sid)
     patch = f"{outdir}/patch{n}.diff"; demo_src = f"{outdir}/demo{n}.rs"; meta_src = f"{outdir}/meta{n}.json"
     global FEATURES, SHELL_DEMO
     FEATURES = sid.startswith("C20")
